@@ -252,8 +252,8 @@ def float_step_ok(v):
 
 def layer_counts(rng, q):
     base = [1, 1, 2, 2, 3, 5, 10, 30, 100, 200]
-    extra = [rng.randint(1, 200) for _ in range(14 if q else 160)]
-    small = [rng.randint(1, 12) for _ in range(10 if q else 120)]
+    extra = [rng.randint(1, 200) for _ in range(24 if q else 600)]
+    small = [rng.randint(1, 12) for _ in range(12 if q else 300)]
     return base + extra + small
 
 
@@ -274,7 +274,8 @@ def run_traces(ctx, X):
     for n in layer_counts(rng, q):
         kinds = ['simple'] if n < 2 else (['simple', 'array'] if rng.random() < 0.6 else [rng.choice(['simple', 'array'])])
         for pkind in kinds:
-            model, pmax, pmin = random_model(rng, n, pkind, X)
+            sub = rng.getrandbits(48)
+            model, pmax, pmin = random_model(random.Random(sub), n, pkind, X)
             lev = np.asarray(model.pressure.pressure_profile_levels, dtype=float)
             if pkind == 'array' and not (np.all(lev > 0) and np.all(np.diff(lev) < 0)):
                 skipped += 1      # outside the quantifier: "for any decreasing levels"
@@ -283,11 +284,12 @@ def run_traces(ctx, X):
             nmodels += 1
             ev, floats = events_of(model, mid, pkind, pmax, pmin, X)
             steps = [e for e in ev if e['ev'] == 'step']
+            recipe = dict(trace=True, sub=sub, n=n, pkind=pkind, mid=mid)
             for e, f in zip(steps, floats):
-                meta[e['id']] = (pkind, n, f)
+                meta[e['id']] = (pkind, n, f, recipe)
             for e in ev:
                 if e['ev'] != 'step':
-                    meta[e['id']] = (pkind, n, None)
+                    meta[e['id']] = (pkind, n, None, recipe)
             events += ev
     if nmodels < 20:
         raise Machinery('too few models generated')
@@ -301,29 +303,29 @@ def run_traces(ctx, X):
         nbad_total += len(badids)
         allbad |= set(badids)
         for e in chunk:
-            pkind, n, f = meta[e['id']]
+            pkind, n, f, recipe = meta[e['id']]
             why = set(badids[e['id']]['why']) if e['id'] in badids else set()
             if e['ev'] == 'levels':
                 clauses = ['levels_wellformed', 'levels_strictly_decreasing'] + \
                           (['layer_is_geometric_mean', 'levels_log_spaced'] if pkind == 'simple' else [])
                 for c in clauses:
                     ctx.verdict(c, c not in why, cls='%s:trace:levels' % pkind, detail='TLC rejected %s (n=%d)' % (e['id'], n),
-                                vector=dict(trace=True, event=e if n <= 12 else dict(id=e['id'], n=n)))
+                                vector=dict(recipe, event=e if n <= 12 else dict(id=e['id'], n=n)))
             elif e['ev'] == 'step':
                 top = ':top-layer' if e['i'] == n - 1 else ''
                 absent = ':entry-absent' if any(e[k][0] < 0 for k in ('H', 'g', 'z0', 'z1', 'dz', 'rho', 'mu', 'T')) else ''
                 for c in STEP_CLAUSES:
                     ctx.verdict(c, c not in why, cls='%s:trace:step%s%s' % (pkind, top, absent),
-                                detail='TLC rejected %s (n=%d): %s' % (e['id'], n, sorted(why)), vector=dict(trace=True, event=e))
+                                detail='TLC rejected %s (n=%d): %s' % (e['id'], n, sorted(why)), vector=dict(recipe, event=e))
                 present = not absent
                 ctx.verdict('step_relations_float_1e-9', (not present) or float_step_ok(f),
-                            cls='%s:float:step%s' % (pkind, top), detail='raw floats %r' % (f,), vector=dict(trace=True, event=e))
+                            cls='%s:float:step%s' % (pkind, top), detail='raw floats %r' % (f,), vector=dict(recipe, event=e))
             else:
                 wrong = sorted(badids[e['id']].get('wrong', [])) if e['id'] in badids else []
                 ctx.verdict('one_entry_per_layer', 'one_entry_per_layer' not in why,
                             cls='%s:trace:profiles:%s:%s' % (pkind, e['src'], '+'.join(wrong)),
                             detail='%s (n=%d): wrong number of entries in %s' % (e['id'], n, wrong),
-                            vector=dict(trace=True, event=e))
+                            vector=dict(recipe, event=e))
     ctx.traces += nmodels
     ctx.note('binding B: %d models, %d events (%d step events), %d array profiles skipped (derived levels not decreasing)'
              % (nmodels, len(events), sum(1 for e in events if e['ev'] == 'step'), skipped))
@@ -402,17 +404,34 @@ def run(ctx):
 
 
 def replay(ctx, violations):
+    """Re-drive the real code: rebuild the model of each stored vector / random recipe, project it
+    again and judge the fresh event (one TLC run for all trace events)."""
     X = setup()
+    models, items = {}, []
     for v in violations:
         vec = v['vector']
-        if vec.get('trace'):
-            e = vec['event']
-            if 'ev' not in e:
-                ctx.verdict(v['clause'], False, cls=v['cls'], detail='levels event of a large model: rerun the check with the same VERIF_SEED', vector=vec)
-                continue
-            ok, bad, _ = validate_trace('Trace_Atmosphere', 'Trace_Atmosphere.cfg', [e])
-            why = set(bad[0]['why']) if bad else set()
-            ctx.verdict(v['clause'], v['clause'] not in why and not (v['clause'] == 'step_relations_float_1e-9'),
-                        cls=v['cls'], detail='replayed logged event: TLC says %s' % sorted(why), vector=vec)
-        else:
+        if not vec.get('trace'):
             judge_vector(ctx, {k: vec[k] for k in vec if k not in ('units', 'pkind')}, vec['units'], vec['pkind'], X)
+            continue
+        key = (vec['sub'], vec['n'], vec['pkind'])
+        if key not in models:
+            model, pmax, pmin = random_model(random.Random(vec['sub']), vec['n'], vec['pkind'], X)
+            ev, floats = events_of(model, vec['mid'], vec['pkind'], pmax, pmin, X)
+            fl = dict(zip([e['id'] for e in ev if e['ev'] == 'step'], floats))
+            models[key] = ({e['id']: e for e in ev}, fl)
+        evs, fl = models[key]
+        e = evs.get(vec['event']['id'])
+        if e is None:
+            raise Machinery('replay: event %s not produced again' % vec['event']['id'])
+        if v['clause'] == 'step_relations_float_1e-9':
+            ctx.verdict(v['clause'], float_step_ok(fl[e['id']]), cls=v['cls'], detail='raw floats %r' % (fl[e['id']],), vector=vec)
+        else:
+            items.append((v, e))
+    if items:
+        uniq = {e['id']: e for _, e in items}
+        ok, bad, _ = validate_trace('Trace_Atmosphere', 'Trace_Atmosphere.cfg', list(uniq.values()))
+        badids = {b['id']: set(b['why']) for b in bad}
+        for v, e in items:
+            why = badids.get(e['id'], set())
+            ctx.verdict(v['clause'], v['clause'] not in why, cls=v['cls'], detail='replay %s: TLC says %s' % (e['id'], sorted(why)),
+                        vector=v['vector'])
